@@ -18,6 +18,15 @@ type c09Gen struct {
 	visFn, visCf           []string            // definitions callable from here
 	params                 map[string][]string // function name -> its parameters
 	scope                  []string            // names bound so far in the enclosing blocks (approximation, steers operand())
+	nh                     int
+	visH                   []string            // variables holding a hash that are bound here (in every reading)
+	hkeys                  map[string][]string // hash variable -> its keys
+	visP                   []c09PRef           // partials rendered earlier in this or an enclosing block
+}
+
+type c09PRef struct {
+	name string
+	inFn bool
 }
 
 func (g *c09Gen) val() string {
@@ -94,6 +103,42 @@ func (g *c09Gen) data() []c09Datum {
 	return d
 }
 
+// hashLet: let hN = {…} - a hash that outlives the constructs it is handed to.
+func (g *c09Gen) hashLet() *c09Node {
+	g.nh++
+	n := &c09Node{T: "hash", Name: "h" + strconv.Itoa(g.nh), Data: g.data()}
+	if len(n.Data) == 0 && g.r.Chance(60) {
+		n.Data = g.data()
+	}
+	g.declHash(n)
+	return n
+}
+
+func (g *c09Gen) declHash(n *c09Node) {
+	ks := []string{}
+	for _, d := range n.Data {
+		ks = append(ks, d.K)
+	}
+	g.hkeys[n.Name] = ks
+	g.visH = append(g.visH, n.Name)
+}
+
+// dataFor: the data of a partial / contentOf / block helper: an inline hash (a fresh value per evaluation) or a
+// variable holding a hash (the same value for every construct it is handed to). Returns the names bound.
+func (g *c09Gen) dataFor(n *c09Node, pVar int) []string {
+	if len(g.visH) > 0 && g.r.Chance(pVar) {
+		n.HVar = Pick(g.r, g.visH)
+		n.HKeys = g.hkeys[n.HVar]
+		return n.HKeys
+	}
+	n.Data = g.data()
+	b := []string{}
+	for _, d := range n.Data {
+		b = append(b, d.K)
+	}
+	return b
+}
+
 // body of a construct: probes first and last, a block in between. bound: names the construct itself binds.
 func (g *c09Gen) body(depth int, inFn bool, bound []string) []*c09Node {
 	r := g.r
@@ -131,8 +176,13 @@ func c09BoundIn(ns []*c09Node, set map[string]bool) {
 				set[p] = true
 			}
 		}
-		for _, d := range n.Data {
-			set[d.K] = true
+		if n.T != "hash" {
+			for _, d := range n.Data {
+				set[d.K] = true
+			}
+		}
+		for _, k := range n.HKeys {
+			set[k] = true
 		}
 		c09BoundIn(n.Body, set)
 	}
@@ -141,8 +191,10 @@ func c09BoundIn(ns []*c09Node, set map[string]bool) {
 // block: lets, probes, constructs. noLet: directly inside an if (not a scope; left open).
 func (g *c09Gen) block(depth int, inFn, noLet bool) []*c09Node {
 	r := g.r
-	nf, nc, ns := len(g.visFn), len(g.visCf), len(g.scope)
-	defer func() { g.visFn, g.visCf, g.scope = g.visFn[:nf], g.visCf[:nc], g.scope[:ns] }()
+	nf, nc, ns, nh, np := len(g.visFn), len(g.visCf), len(g.scope), len(g.visH), len(g.visP)
+	defer func() {
+		g.visFn, g.visCf, g.scope, g.visH, g.visP = g.visFn[:nf], g.visCf[:nc], g.scope[:ns], g.visH[:nh], g.visP[:np]
+	}()
 	out := []*c09Node{}
 	items := r.Range(1, 3)
 	if depth == 0 {
@@ -151,21 +203,39 @@ func (g *c09Gen) block(depth int, inFn, noLet bool) []*c09Node {
 	for i := 0; i < items; i++ {
 		w := r.Intn(100)
 		switch {
-		case w < 25 && !noLet:
+		case w < 22 && !noLet:
 			n := g.name()
 			out = append(out, &c09Node{T: "let", Name: n, A: g.operand(15, 6, 1, []string{n})})
 			g.scope = append(g.scope, n)
 			if r.Chance(40) {
 				out = append(out, g.probe(n))
 			}
-		case w < 40:
+		case w < 35:
 			out = append(out, g.probe(g.name()))
-		case w < 47 && len(g.visFn) > 0: // call a function defined further out / earlier
+		case w < 42 && len(g.visFn) > 0: // call a function defined further out / earlier
 			out = append(out, g.call(Pick(r, g.visFn), 0))
 			out = append(out, g.probe(g.name()))
-		case w < 53 && len(g.visCf) > 0 && !inFn:
-			out = append(out, &c09Node{T: "cfcall", Name: Pick(r, g.visCf), Data: g.data()})
+		case w < 48 && len(g.visCf) > 0 && !inFn:
+			n := &c09Node{T: "cfcall", Name: Pick(r, g.visCf)}
+			g.dataFor(n, 50)
+			out = append(out, n)
 			out = append(out, g.probe(g.name()))
+		case w < 53 && !noLet: // a hash held in a variable, to be handed to the constructs that follow
+			out = append(out, g.hashLet())
+		case w < 59 && g.pickPartial(inFn) != "": // a partial rendered earlier, once more (with the same or other data)
+			n := &c09Node{T: "pagain", Name: g.pickPartial(inFn)}
+			bound := g.dataFor(n, 70)
+			out = append(out, n)
+			k := 0
+			for _, b := range bound {
+				if k < 2 && r.Chance(60) {
+					out = append(out, g.probe(b))
+					k++
+				}
+			}
+			if k == 0 {
+				out = append(out, g.probe(g.name()))
+			}
 		case depth < g.maxDepth:
 			if r.Chance(35) {
 				out = append(out, g.probe(g.name()))
@@ -189,6 +259,17 @@ func (g *c09Gen) block(depth int, inFn, noLet bool) []*c09Node {
 		}
 	}
 	return out
+}
+
+// pickPartial: the most recent earlier partial written in the same kind of position (a partial's template
+// observes through the output only outside function bodies); "" if there is none.
+func (g *c09Gen) pickPartial(inFn bool) string {
+	for i := len(g.visP) - 1; i >= 0; i-- {
+		if g.visP[i].inFn == inFn {
+			return g.visP[i].name
+		}
+	}
+	return ""
 }
 
 func (g *c09Gen) construct(depth int, inFn bool) []*c09Node {
@@ -257,21 +338,16 @@ func (g *c09Gen) construct(depth int, inFn bool) []*c09Node {
 		return out
 	case w < 60:
 		g.np++
-		n := &c09Node{T: "partial", Name: "p" + strconv.Itoa(g.np), Data: g.data()}
-		b := []string{}
-		for _, d := range n.Data {
-			b = append(b, d.K)
-		}
+		n := &c09Node{T: "partial", Name: "p" + strconv.Itoa(g.np)}
+		b := g.dataFor(n, 50)
 		n.Body = g.body(depth+1, inFn, b)
+		g.visP = append(g.visP, c09PRef{n.Name, inFn})
 		return []*c09Node{n}
 	case w < 74:
 		g.nc++
 		d := &c09Node{T: "cfdef", Name: "c" + strconv.Itoa(g.nc)}
-		c := &c09Node{T: "cfcall", Name: d.Name, Data: g.data()}
-		b := []string{}
-		for _, x := range c.Data {
-			b = append(b, x.K)
-		}
+		c := &c09Node{T: "cfcall", Name: d.Name}
+		b := g.dataFor(c, 40)
 		d.Body = g.body(depth+1, inFn, b)
 		out := []*c09Node{d}
 		out = append(out, filler()...)
@@ -282,19 +358,13 @@ func (g *c09Gen) construct(depth int, inFn bool) []*c09Node {
 		return out
 	case w < 84:
 		g.nc++
-		n := &c09Node{T: "cof", Name: "z" + strconv.Itoa(g.nc), Data: g.data()}
-		b := []string{}
-		for _, d := range n.Data {
-			b = append(b, d.K)
-		}
+		n := &c09Node{T: "cof", Name: "z" + strconv.Itoa(g.nc)}
+		b := g.dataFor(n, 40)
 		n.Body = g.body(depth+1, inFn, b)
 		return []*c09Node{n}
 	case w < 94:
-		n := &c09Node{T: "blk", Data: g.data()}
-		b := []string{}
-		for _, d := range n.Data {
-			b = append(b, d.K)
-		}
+		n := &c09Node{T: "blk"}
+		b := g.dataFor(n, 30)
 		n.Body = g.body(depth+1, inFn, b)
 		return []*c09Node{n}
 	default:
@@ -306,7 +376,7 @@ func (g *c09Gen) construct(depth int, inFn bool) []*c09Node {
 
 // ---- labels, shape
 
-var c09Kind = map[string]string{"for": "for", "call": "fn-call", "partial": "partial", "cfcall": "contentFor", "cof": "contentOf-block", "blk": "blockwith-helper", "if": "if"}
+var c09Kind = map[string]string{"for": "for", "call": "fn-call", "partial": "partial", "pagain": "partial", "cfcall": "contentFor", "cof": "contentOf-block", "blk": "blockwith-helper", "if": "if"}
 
 func c09Label(ns []*c09Node, enclosing string) {
 	last := ""
@@ -372,6 +442,18 @@ type c09Printer struct {
 	always   map[int]bool // probe id -> bound at every execution in every reading
 	unsafe   map[int]bool // variable read id -> may meet an unbound name, nil or a call's value
 	partials map[string]string
+	maps     map[string]map[string]string
+}
+
+// data: the data argument of a partial / contentOf / block helper call ("" = none).
+func (p *c09Printer) data(n *c09Node) string {
+	if n.HVar != "" {
+		return n.HVar
+	}
+	if len(n.Data) == 0 {
+		return ""
+	}
+	return p.hash(n.Data)
 }
 
 // arg: a variable read is written as the bare identifier whenever the reference interpreter says the name is
@@ -438,25 +520,45 @@ func (p *c09Printer) print(ns []*c09Node, inFn bool) string {
 			b.WriteString("<% let " + n.Name + " = fn(" + strings.Join(n.Ps, ", ") + ") { %>" + p.print(n.Body, true) + "<% } %>")
 		case "call":
 			b.WriteString("<%= " + p.callExpr(n) + " %>")
-		case "partial":
-			p.partials[n.Name] = p.print(n.Body, inFn)
-			if len(n.Data) == 0 {
+		case "hash":
+			if n.Go {
+				gm := map[string]string{}
+				for _, d := range n.Data {
+					gm[d.K] = d.A.Lit
+				}
+				p.maps[n.Name] = gm
+			} else {
+				b.WriteString("<% let " + n.Name + " = " + p.hash(n.Data) + " %>")
+			}
+		case "partial", "pagain":
+			if n.T == "partial" {
+				p.partials[n.Name] = p.print(n.Body, inFn)
+			}
+			if d := p.data(n); d == "" {
 				b.WriteString("<%= partial(" + strconv.Quote(n.Name) + ") %>")
 			} else {
-				b.WriteString("<%= partial(" + strconv.Quote(n.Name) + ", " + p.hash(n.Data) + ") %>")
+				b.WriteString("<%= partial(" + strconv.Quote(n.Name) + ", " + d + ") %>")
 			}
 		case "cfdef":
 			b.WriteString("<% contentFor(" + strconv.Quote(n.Name) + ") { %>" + p.print(n.Body, inFn) + "<% } %>")
 		case "cfcall":
-			if len(n.Data) == 0 {
+			if d := p.data(n); d == "" {
 				b.WriteString("<%= contentOf(" + strconv.Quote(n.Name) + ") %>")
 			} else {
-				b.WriteString("<%= contentOf(" + strconv.Quote(n.Name) + ", " + p.hash(n.Data) + ") %>")
+				b.WriteString("<%= contentOf(" + strconv.Quote(n.Name) + ", " + d + ") %>")
 			}
 		case "cof":
-			b.WriteString("<%= contentOf(" + strconv.Quote(n.Name) + ", " + p.hash(n.Data) + ") { %>" + p.print(n.Body, inFn) + "<% } %>")
+			d := p.data(n)
+			if d == "" {
+				d = "{}"
+			}
+			b.WriteString("<%= contentOf(" + strconv.Quote(n.Name) + ", " + d + ") { %>" + p.print(n.Body, inFn) + "<% } %>")
 		case "blk":
-			b.WriteString("<%= c09with(" + p.hash(n.Data) + ") { %>" + p.print(n.Body, inFn) + "<% } %>")
+			d := p.data(n)
+			if d == "" {
+				d = "{}"
+			}
+			b.WriteString("<%= c09with(" + d + ") { %>" + p.print(n.Body, inFn) + "<% } %>")
 		}
 	}
 	return b.String()
@@ -514,8 +616,22 @@ func c09Features(ns []*c09Node, unsafe map[int]bool, params map[string][]string,
 				operand("elem", e)
 			}
 		}
+		pos := "data"
+		if n.T == "hash" {
+			pos = "hash"
+			set["hash-in-variable"] = true
+			if n.Go {
+				set["hash-is-go-map"] = true
+			}
+		}
 		for _, d := range n.Data {
-			operand("data", d.A)
+			operand(pos, d.A)
+		}
+		if n.HVar != "" {
+			set["data=hash-variable:"+c09Kind[n.T]] = true
+		}
+		if n.T == "pagain" {
+			set["partial-rendered-again"] = true
 		}
 		c09Features(n.Body, unsafe, params, set)
 	}
@@ -541,10 +657,13 @@ func c09Build(prog []*c09Node) *c09Case {
 			always[id] = always[id] && ok
 		}
 	}
-	p := &c09Printer{always: always, unsafe: unsafe, partials: map[string]string{}}
+	p := &c09Printer{always: always, unsafe: unsafe, partials: map[string]string{}, maps: map[string]map[string]string{}}
 	cs := &c09Case{Tmpl: p.print(prog, false), Shape: c09Shape(prog)}
 	if len(p.partials) > 0 {
 		cs.Partials = p.partials
+	}
+	if len(p.maps) > 0 {
+		cs.Maps = p.maps
 	}
 	feat := map[string]bool{}
 	c09Features(prog, unsafe, map[string][]string{}, feat)
@@ -580,6 +699,11 @@ func c09Variants(ns []*c09Node) [][]*c09Node {
 			c.Data = n.Data[1:]
 			out = append(out, repl(i, []*c09Node{&c}))
 		}
+		if n.HVar != "" {
+			c := *n
+			c.HVar, c.HKeys = "", nil
+			out = append(out, repl(i, []*c09Node{&c}))
+		}
 		// operands: a nested call -> a literal (any depth); a variable read -> a literal
 		simpler := func(a c09Arg) (c09Arg, bool) {
 			if a.Call == nil && a.Var == "" {
@@ -603,7 +727,7 @@ func c09Variants(ns []*c09Node) [][]*c09Node {
 			out = append(out, repl(i, []*c09Node{&c}))
 		}
 		for j, d := range n.Data {
-			if a, ok := simpler(d.A); ok {
+			if a, ok := simpler(d.A); ok && !n.Go {
 				c := *n
 				c.Data = append([]c09Datum{}, n.Data...)
 				c.Data[j].A = a
@@ -661,10 +785,13 @@ func c09Valid(ns []*c09Node, vis map[string]bool) bool {
 	}()
 	for _, n := range ns {
 		switch n.T {
-		case "call", "cfcall":
+		case "call", "cfcall", "pagain":
 			if !vis[n.Name] {
 				return false
 			}
+		}
+		if n.HVar != "" && !vis[n.HVar] {
+			return false
 		}
 		if !c09CallsVisible(n.Args, vis) || !c09CallsVisible([]c09Arg{n.A}, vis) {
 			return false
@@ -672,7 +799,7 @@ func c09Valid(ns []*c09Node, vis map[string]bool) bool {
 		if !c09Valid(n.Body, vis) {
 			return false
 		}
-		if n.T == "fndef" || n.T == "cfdef" {
+		if n.T == "fndef" || n.T == "cfdef" || n.T == "partial" || n.T == "hash" {
 			if !vis[n.Name] {
 				vis[n.Name] = true
 				mine = append(mine, n.Name)
@@ -685,11 +812,21 @@ func c09Valid(ns []*c09Node, vis map[string]bool) bool {
 func c09Generate(cfg Config, rep *Report, r *Rng) {
 	total := cfg.N(18000, 200000)
 	for i := 0; i < total && !rep.Full(); i++ {
-		g := &c09Gen{r: r, maxDepth: 3, params: map[string][]string{}}
+		g := &c09Gen{r: r, maxDepth: 3, params: map[string][]string{}, hkeys: map[string][]string{}}
 		if i < total/8 { // small programs first: the report keeps the shortest failing case per family
 			g.maxDepth = 1 + i%2
 		}
-		prog := g.block(0, false, false)
+		prog := []*c09Node{}
+		if r.Chance(20) { // a Go map in the render context, to be handed to partials / contentOf as their data
+			n := &c09Node{T: "hash", Name: "g1", Go: true}
+			a := r.Intn(3)
+			for _, k := range [][]string{{c09Names[a]}, {c09Names[a], c09Names[(a+1)%3]}}[r.Intn(2)] {
+				n.Data = append(n.Data, c09Datum{K: k, A: g.lit()})
+			}
+			g.declHash(n)
+			prog = append(prog, n)
+		}
+		prog = append(prog, g.block(0, false, false)...)
 		for _, n := range c09Names { // every program ends by looking at all three names at top level
 			prog = append(prog, g.probe(n))
 		}
